@@ -3,7 +3,7 @@
    oracle: the gate only sees the key set of the status map (repository-relative,
    slash-separated paths of every file that is not clean: modified, staged, untracked, ...).
    Definitions only. *)
-From Regal Require Export Base.PathModel.
+From Regal Require Export Base.PathModel Model.Provider.
 
 Definition s_dotgit : str := [46; 103; 105; 116].     (* ".git" *)
 
@@ -113,9 +113,14 @@ Definition git_guard_pinned (rr : repo_result) (status modified deleted : list s
 
 (* ---------------------------------------------------------------- specification *)
 
-(* the file [f] (absolute) is the one the status key [k] of the work tree [root] names *)
-Definition denotes (root k f : str) : Prop := f = root ++ [SLASH] ++ k.
+(* [rpath], [cpath], [regular]: Model/Provider.v.  The file [f] (absolute, clean) is the one
+   that the status key with components [ks] names in the work tree with components [rs]. *)
+Definition denotes (rs ks : list str) (f : str) : Prop := f = cpath (rs ++ ks).
+
+(* go-git's keys are clean relative slash paths *)
+Definition clean_key (k : str) (ks : list str) : Prop :=
+  k = rpath ks /\ Forall regular ks /\ ks <> [].
 
 (* some file the run touches is reported not clean *)
-Definition touches_dirty (root : str) (status modified deleted : list str) : Prop :=
-  exists f k, In f (modified ++ deleted) /\ In k status /\ denotes root k f.
+Definition touches_dirty (rs : list str) (status touched : list str) : Prop :=
+  exists f k ks, In f touched /\ In k status /\ clean_key k ks /\ denotes rs ks f.
